@@ -303,7 +303,12 @@ def assert_valid_covariance(
     assert np.allclose(covariance, covariance.T)
 
     covariance_eigenvalues = np.linalg.eig(covariance)[0]
-    if np.any(covariance_eigenvalues < negative_tol):
+    # Rounding error in the eigenvalues grows with the size of the matrix and
+    # is relative to the largest eigenvalue
+    scale = max(1, len(covariance_eigenvalues)) * max(
+        1.0, float(np.max(np.abs(covariance_eigenvalues), initial=0.0))
+    )
+    if np.any(np.real(covariance_eigenvalues) < negative_tol * scale):
         # negative definite matrix is not a valid representation of uncertainty
         raise AssertionError(
             f"Negative {str(name)}:\n{covariance}\nEigen Values: {min(covariance_eigenvalues)}\n{covariance_eigenvalues}"
